@@ -9,6 +9,11 @@ import traceback
 from . import core
 
 
+def _threaded_hang():
+    from . import isocheck
+    return isocheck.ThreadedHang
+
+
 def main():
     ap = argparse.ArgumentParser()
     ap.add_argument('pid')
@@ -34,6 +39,10 @@ def main():
             mod.replay(rep, wd, payload)
         else:
             mod.run(rep, wd, a.tier, seed)
+        return rep.finish(write_evidence=not a.replay)
+    except _threaded_hang() as ex:
+        # the library did not come back while several threads were driving it: in no outcome set of any property
+        rep.violation('threads:library-call-did-not-return', {'detail': str(ex)})
         return rep.finish(write_evidence=not a.replay)
     except core.MachineryError as ex:
         print('MACHINERY-FAILURE %s: %s' % (pid, ex))
